@@ -327,7 +327,12 @@ func c50Exec(ctx *vk.Ctx, c c50Case) error {
 			if ok {
 				v = m.kv[i].v
 			}
-			add("K|"+o.K, strconv.Itoa(i)+","+v+","+c50Bool(ok), false)
+			// the index of an absent key is not documented: only compared for present keys
+			idx := "*"
+			if ok {
+				idx = strconv.Itoa(i)
+			}
+			add("K|"+o.K, idx+","+v+","+c50Bool(ok), false)
 		case "N":
 			add("N", strconv.Itoa(len(m.kv)), false)
 		case "X":
@@ -436,6 +441,11 @@ func c50Exec(ctx *vk.Ctx, c c50Case) error {
 		}
 		if strings.HasPrefix(w, "*#") {
 			g = "*" + g[1:]
+		}
+		if strings.HasPrefix(w, "*,") {
+			if p := strings.Index(g, ","); p >= 0 {
+				g = "*" + g[p:]
+			}
 		}
 		if g != w {
 			return fmt.Errorf("op %d %q: avl answered %q, ordered-map model %q", i, prog[i], g, w)
